@@ -96,10 +96,12 @@ type Obligation struct {
 	// ExpectSat: vacuity canaries expect sat/unknown, never unsat
 	ExpectSat bool
 	Inputs    []string // terms whose values are requested in the model
+	Extra     []string // assumptions of this obligation only (lemmas named in the clause)
 }
 
 // fctx is the verification context of one function under contract.
 type fctx struct {
+	quiet   map[string][]string // quiet post-conditions of the calls made so far, by "<callee>.<label>"
 	P       *Prog
 	S       *Sorts
 	fn      *ssa.Function
